@@ -127,6 +127,9 @@ class PyFat(object):
         self.is_read_only = True
         self.lazy_load = lazy_load
         self.__lock = threading.Lock()
+        #: Serialises operations that modify the filesystem (FAT,
+        #: directories) when it is used from several threads
+        self.fs_lock = threading.RLock()
 
     def __set_fp(self, fp: Union[IOBase, BytesIO]):
         if self.__fp is not None:
